@@ -3,6 +3,7 @@ import TFV.Properties.Src.SelfCGAAdapt
 import TFV.Properties.Src.PdpgaTrial
 import TFV.Properties.Src.GATrial
 import TFV.Properties.Src.GPTrial
+import TFV.Properties.Src.PdpgaAdapt
 #print axioms TFV.SelfConf.C14_bumped_sum
 #print axioms TFV.SelfConf.C14_newProba_dist
 #print axioms TFV.SelfConf.C14_newProba_rule
@@ -16,3 +17,5 @@ import TFV.Properties.Src.GPTrial
 #print axioms TFV.SrcTie.C14_src_selfcga_adapt
 #print axioms TFV.SrcTie.C14_src_pdpga_offspring
 #print axioms TFV.SrcTie.C14_src_pdpgp_offspring
+#print axioms TFV.SrcTie.C14_src_pdpga_adapt_update
+#print axioms TFV.SrcTie.C14_src_pdpga_adapt_first
